@@ -24,9 +24,9 @@ def FLOORS(tier):
     q = tier == "quick"
     f = {"ties>=2-minimisers": 300 if q else 10000, "constant-model": 40, "empty-model": 10, "nothing-valid": 100, "nothing-valid-answers-checked": 50, "infinite-constant": 40, "infinite-term": 30,
          "method-calls": 400 if q else 10000, "valid-predicate-calls": 10000 if q else 5 * 10 ** 5, "with-offset": 300,
-         "method:PCBO-with-constraints": 20, "stale-model": 50, "huge-offset": 100, "valid-argument-omitted": 100,
+         "method:PCBO-with-constraints": 20, "stale-model": 50, "huge-offset": 100, "huge-exact-integer-offset": 60, "valid-argument-omitted": 100,
          "free-function-on-constrained-model": 15, "typed-coefficients": 100, "second-call-after-result-edited": 300,
-         "dict-with-repeated-labels": 40, "dict-with-zero-coefficients": 20}
+         "dict-with-repeated-labels": 40, "dict-with-diagonal-keys": 25, "dict-with-zero-coefficients": 20}
     for fn in FUNCS.values():
         f["fn:" + fn] = 200 if q else 8000
     for k in ("bool", "spin"):
@@ -122,7 +122,15 @@ def case(ctx, rng, idx):
     if terms and rng.random() < 0.08:
         terms[()] = terms.get((), 0) + rng.choice([2 ** 34, -2 ** 40, 2 ** 31 + 1])      # exact in floats, dwarfs every gap
         ctx.cat("huge-offset")
-    if terms and rng.random() < 0.08:
+    exact_ints = False
+    if terms and rng.random() < 0.05:
+        # integer coefficients next to a constant no double can hold exactly together with them: Python integers are exact,
+        # so are the minimum and the set of minimisers
+        terms = {k: (int(v) if float(v).is_integer() else int(2 * v)) for k, v in terms.items()}
+        terms[()] = terms.get((), 0) + rng.choice([2 ** 60, -2 ** 70, 2 ** 64 + 1])
+        exact_ints = True
+        ctx.cat("huge-exact-integer-offset")
+    if terms and not exact_ints and rng.random() < 0.08:
         import numpy as np
         from fractions import Fraction
         conv = rng.choice([Fraction, np.float64, lambda v: np.int64(round(v) or 1)])
@@ -141,6 +149,16 @@ def case(ctx, rng, idx):
         terms = {k: v for k, v in raw.items() if v} or terms
         raw_dict = True
         ctx.cat("dict-with-repeated-labels")
+    elif tn == "dict" and terms and deg2 and rng.random() < 0.15:
+        # the quadratic solvers take full-matrix style dicts: diagonal keys (i, i) next to (i,), both orientations of a pair
+        extra = {}
+        for x_ in rng.sample(labs, rng.randint(1, len(labs))):
+            extra[(x_, x_)] = rng.choice([-3, -1, 2, 5])
+        for k in [k for k in terms if len(k) == 2][:2]:
+            extra[(k[1], k[0])] = rng.choice([-2, 1, 3])
+        terms = dict(terms)
+        terms.update({k: v for k, v in extra.items() if k not in terms})
+        ctx.cat("dict-with-diagonal-keys")
     elif tn == "dict" and terms and rng.random() < 0.08:
         # a plain dict may carry explicit zero coefficients: its keys still name its variables
         if rng.random() < 0.5:
@@ -176,7 +194,8 @@ def case(ctx, rng, idx):
     target = tuple(rng.choice(vals) for _ in tv)
     kcard = rng.randint(0, len(tv))
     malformed = []
-    levels = sorted({float(p.value(dict(zip(tv, a)))) for a in __import__("itertools").product(vals, repeat=len(tv))}) if len(tv) <= 7 else [0.0]
+    lv_ = (lambda v: v) if exact_ints else float          # (integers beyond 2**53: the reference side stays exact too)
+    levels = sorted({lv_(p.value(dict(zip(tv, a)))) for a in __import__("itertools").product(vals, repeat=len(tv))}) if len(tv) <= 7 else [0.0]
     thr_level = levels[len(levels) // 2]
 
     def valid(x, count=True):
@@ -194,7 +213,7 @@ def case(ctx, rng, idx):
             return sum(1 for v in tv if x[v] == vals[1]) == kcard
         if pk == "reads-model":
             # "levels above a threshold": evaluates the very object that is being solved (its offset included)
-            live = (L.utils.puso_value if kind == "spin" else L.utils.pubo_value)(x, m) if count else float(p.value(x))
+            live = (L.utils.puso_value if kind == "spin" else L.utils.pubo_value)(x, m) if count else lv_(p.value(x))
             return live >= thr_level
         return tuple(x[v] for v in tv) == target
     alls = rng.random() < 0.5
